@@ -155,6 +155,21 @@ pub fn gen_c14(rng: &mut Rng, i: u64, tier: Tier) -> Script {
         return s;
     }
     base_cfg(rng, &mut s, true);
+    if rng.chance(1, 20) {
+        let plain = crate::props_pipe::boundary_family(rng, &mut s);
+        // MZFlush values only
+        for o in s.ops.iter_mut() {
+            if o[2] > 5 {
+                o[2] = 2;
+            }
+            if o[1] == 0 {
+                o[1] = 1;
+            }
+        }
+        s.set("tail_grant", rng.pick(&[1000i64, 512, 4096, 31752, 64]));
+        s.set_blob("plain", plain);
+        return s;
+    }
     let n = match rng.below(20) {
         0 => rng.range(30_000, 200_000),
         1 | 2 | 3 => rng.range(600, 8000),
